@@ -70,7 +70,7 @@ def diff_states(ex, a, b, lv):
             elif ob.sym is not oa.sym or (ob.items is None) != (oa.items is None):
                 lv.objs.add(oid)
         elif isinstance(ob, HBio):
-            if not _same_val(oa.content, ob.content):
+            if not _same_val(oa.content, ob.content) or (oa.pos is None) != (ob.pos is None):
                 lv.objs.add(oid)
         elif isinstance(ob, HDict):
             if set(ob.items) != set(oa.items) or any(not _same_val(oa.items[k], ob.items[k]) for k in ob.items):
@@ -149,6 +149,8 @@ def havoc_obj(ex, st, oid, name, declared, peek_obj):
         if isinstance(sh, ConstShape):
             raise Unsupported("BytesIO with literal content modified in a loop")
         o.content = sh.fresh(st, name + ".content")
+        if o.pos is not None or (peek_obj is not None and peek_obj.pos is not None):
+            raise Unsupported("BytesIO with an explicit stream position modified in a loop")
         return
     if isinstance(o, HList):
         sh = declared
